@@ -25,7 +25,9 @@ try:
     run = open(os.path.join(demo, "RUN.txt")).read()
     # demo command: take it from meta.demo_cmd, strip cd and env exports
     cmd = meta.get("demo_cmd") or run
-    cmd = re.sub(r"cd\s+/tmp/mut/\S+\s*&&\s*", "", cmd)
+    cmd = re.sub(r"cd\s+/tmp/mut\d*/\S+\s*&&\s*", "", cmd)
+    cmd = re.sub(r"^\s*(cp|mkdir)\s+[^&]*&&\s*", "", cmd)
+    cmd = re.sub(r"^\s*(cp|mkdir)\s+[^&]*&&\s*", "", cmd)
     cmd = re.sub(r"export [^;&]*(;|&&)\s*", "", cmd)
     cmd = re.sub(r"\b(GOFLAGS|GOPROXY|GOSUMDB|GOTOOLCHAIN)=\S+\s*", "", cmd).strip()
     if "go test" not in cmd and "go run" not in cmd:
